@@ -236,6 +236,16 @@ theorem regexp_from_regexp (pat flags : List Nat) (withNew given : Bool) :
 
 example : Spec.source [97, 47, 91, 47, 93, 92, 47] = [97, 92, 47, 91, 47, 93, 92, 47] ∧ Spec.source [] = [40, 63, 58, 41] := by decide
 
+/-- **replacer_argument_types.**  Every argument a function replacer receives has the §15.5.4.11 type: the
+    matched text and the captures are strings (undefined for an unmatched group), the offset a number and
+    the last argument the PRIMITIVE string the receiver was converted to (`typeof` "string", `===` the
+    subject) – whatever the receiver was (String object, number, object with toString). -/
+theorem replacer_argument_types (t : List Nat) (mt : Caps) :
+    modelF t .types mt = typeReport [115, 116, 114, 105, 110, 103] mt true := rfl
+
+example : typeReport [115, 116, 114, 105, 110, 103] [some (1, 2), none] true
+    = "<string,undefined,number,string|true>".toList.map Char.toNat := by decide
+
 /-! ## 5. end to end: the real matcher satisfies the link -/
 
 /-- **matcher_context_free.**  A pattern without `^`, `\b`, `\B` matches in the suffix `s[k:]` exactly as
